@@ -136,7 +136,17 @@ func c07InterimRun(c *Client, url string, shape int) (ans string, panicked bool,
 	return
 }
 
+// c07InterimSlow counts calls that ended only through the client timeout: after three of them a
+// lane stops early (enough evidence; the time budget is for the other lanes).
+var c07InterimSlow int
+
 func c07InterimJudge(s *verifh.Session, proto int, ic c07InterimCase, run func() (string, bool, string)) bool {
+	t0 := time.Now()
+	defer func() {
+		if time.Since(t0) > 6*time.Second {
+			c07InterimSlow++
+		}
+	}()
 	human := fmt.Sprintf("HTTP/%d %s", proto, ic)
 	id := fmt.Sprintf("interim:h%d:%s:%d:%v", proto, ic.modelArg(), ic.shape, ic.close)
 	s.Begin(id, human)
@@ -271,7 +281,12 @@ func TestVerif_C07_interim1(t *testing.T) {
 		return c
 	}
 	c := mkc()
+	c07InterimSlow = 0
 	for i, ic := range c07InterimCases(1) {
+		if c07InterimSlow >= 3 {
+			s.Count("stopped-early")
+			break
+		}
 		path := "/i" + strconv.Itoa(i)
 		mu.Lock()
 		scripts[path] = ic
@@ -329,7 +344,12 @@ func TestVerif_C07_interim2(t *testing.T) {
 		return c
 	}
 	c := mkc()
+	c07InterimSlow = 0
 	for i, ic := range c07InterimCases(2) {
+		if c07InterimSlow >= 3 {
+			s.Count("stopped-early")
+			break
+		}
 		var out bytes.Buffer
 		out.Write(c07Frame{-1, 4, 0, 0, nil}.bytes())
 		for j, code := range ic.codes {
@@ -390,7 +410,12 @@ func TestVerif_C07_interim3(t *testing.T) {
 		return C().SetTimeout(8 * time.Second).EnableForceHTTP3().EnableInsecureSkipVerify().SetLogger(nil)
 	}
 	c := mkc()
+	c07InterimSlow = 0
 	for i, ic := range c07InterimCases(3) {
+		if c07InterimSlow >= 3 {
+			s.Count("stopped-early")
+			break
+		}
 		var out bytes.Buffer
 		for _, code := range ic.codes {
 			fields := [][2]string{{":status", strconv.Itoa(code)}}
